@@ -119,6 +119,7 @@ let pipe_obs id pfx cec is_scale hib (prev_lh : string list) obs : string list =
   | _ ->
   let failed = field_opt "failed" obs <> None in
   count "pipe_cases";
+  if field_opt "same-pipeline" obs <> None then count "reuse_analyses_with_the_same_pipeline_object";
   if hib > 0 then count "pipe_cases_with_hibernation";
   let lh = List.map atom (args (field "lhashes" obs)) in
   (* --- the steps the items saw *)
@@ -203,10 +204,15 @@ let pipe_obs id pfx cec is_scale hib (prev_lh : string list) obs : string list =
       mismatch id "after a failed analysis DevsAnalysis holds neither the model's state after all recorded steps nor after all but the last";
     let listed = List.map (fun cm -> iarg cm 0) (args (field "commits" obs)) in
     let ids l = List.map (fun cs -> ni cs.cs_commit) l in
-    let stale = if prev_lh <> [] && is_prefix prev_lh lh then List.length prev_lh else 0 in
-    let rest = drop stale listed in
-    if rest <> ids (commits_run_fast msteps) && rest <> ids (commits_run_fast (but_last msteps)) then
-      mismatch id "after a failed analysis CommitsAnalysis holds neither the model's listing after all recorded steps nor after all but the last";
+    let fits l = l = ids (commits_run_fast msteps) || l = ids (commits_run_fast (but_last msteps)) in
+    if not (fits listed) then begin
+      if prev_lh <> [] && is_prefix prev_lh lh && fits (drop (List.length prev_lh) listed) then begin
+        count "analyses_with_stale_listing";
+        propfail id (Printf.sprintf "[reuse:commits-listing-not-reset] after a failed analysis the re-used CommitsAnalysis instance holds %d commit(s), the first %d are the entries it held from its earlier analyses (Initialize does not reset the listing)"
+                       (List.length listed) (List.length prev_lh))
+      end else
+        mismatch id "after a failed analysis CommitsAnalysis holds neither the model's listing after all recorded steps nor after all but the last"
+    end;
     lh
   end else begin
   (* --- fine correspondence 2: DevsResult *)
@@ -472,11 +478,15 @@ let reuse id c =
     end else begin
       count "reuse_analyses";
       if i > 0 then count "reuse_analyses_on_used_items";
-      Hashtbl.replace before i !held;
+      (* the CommitsAnalysis instance is the one of the analysis before when the case says so (rc 1) or when the whole
+         Pipeline object was used again *)
+      let same = field_opt "same-pipeline" obs <> None in
+      let prev = if rc || same then !held else [] in
+      Hashtbl.replace before i prev;
       let pfx = if i = 0 then Printf.sprintf "analysis 1 of %d (new leaf items): " total
+        else if same then Printf.sprintf "analysis %d of %d with the SAME Pipeline object as the one before (Initialize, Run again): " (i + 1) total
         else Printf.sprintf "analysis %d of %d with the leaf item instances of the earlier ones (new pipeline, DeployItem, Initialize, Run): " (i + 1) total in
-      held := pipe_obs id pfx cec is_scale hib !held obs;
-      if not rc then held := []
+      held := pipe_obs id pfx cec is_scale hib prev obs
     end) runs
 
 (* The extracted list functions are not tail recursive; a script of 10^6 edits needs more than the default 8 MB of
